@@ -874,7 +874,8 @@ impl TransactionBuilder {
     }
 
     pub fn add_reference_input(&mut self, reference_input: &TransactionInput) {
-        self.reference_inputs.insert(reference_input.clone(), 0);
+        // keeps a script size declared earlier for this input (add_script_reference_input)
+        self.reference_inputs.entry(reference_input.clone()).or_insert(0);
     }
 
     pub fn add_script_reference_input(
